@@ -76,9 +76,12 @@ def glm_fit(formula, data, w=None):
     return smf.glm(formula, data, freq_weights=w, family=fam).fit()
 
 
-def reference(chk, df, expo, weights, missing, miss_den):
+def reference(chk, df, expo, weights, missing, miss_den, ipmw_in_use=None):
     """the documented pipeline re-done by the harness with its own GLM calls.
-    Returns dict(cc=complete frame, w=weights multiplied into diff, pi=fitted values, ipmw=..., h_ok=bool)"""
+    `ipmw_in_use`: the missing-outcome weights the estimator reports (public attribute `ipmw`); when given, the
+    exposure model and the estimating equations are weighted by *those* (the property is about the root, not about
+    the IPMW recipe; the recipe is compared separately in the nuisance layer of K against `ipmw_ref`).
+    Returns dict(cc=complete frame, w=weights multiplied into diff, pi=fitted values, ipmw_ref=..., h_ok=bool)"""
     import patsy
     d0 = df.dropna(subset=[c for c in df.columns if c != 'Y']).reset_index(drop=True)
     M = d0['Y'].notna().astype(int)
@@ -92,6 +95,10 @@ def reference(chk, df, expo, weights, missing, miss_den):
         else:
             num = 1
         ipmw = np.where(M == 1, num / den, np.nan)
+    ipmw_ref = ipmw
+    if ipmw is not None and ipmw_in_use is not None and np.shape(ipmw_in_use) == np.shape(ipmw) and \
+            bool(np.all(np.isfinite(np.asarray(ipmw_in_use, dtype=float)[M.values == 1]))):
+        ipmw = np.asarray(ipmw_in_use, dtype=float)
     cc = d0.loc[M == 1].copy()
     if ipmw is not None:
         w = ipmw[M.values == 1] * (cc['wt'].values if weights else 1.0)
@@ -108,8 +115,8 @@ def reference(chk, df, expo, weights, missing, miss_den):
     h_ok = bool(fm.converged) and float(np.max(np.abs(score))) <= 1e-7 * float(np.sum(ww)) \
         and float(pi.min()) > 1e-6 and float(pi.max()) < 1 - 1e-6
     chk.h_checked += 1
-    return {'cc': cc, 'w': np.ones(len(cc)) if w is None else np.asarray(w, dtype=float), 'pi': pi, 'ipmw': ipmw,
-            'h_ok': h_ok, 'weighted': w is not None}
+    return {'cc': cc, 'w': np.ones(len(cc)) if w is None else np.asarray(w, dtype=float), 'pi': pi,
+            'ipmw': ipmw_ref, 'h_ok': h_ok, 'weighted': w is not None}
 
 
 def run_impl(df, expo, p, weights, missing, miss_den, solver='closed', **kw):
@@ -170,7 +177,13 @@ def check_closed(chk, drv, df, ytype, p, weights, missing, expo, miss_den, seedi
     case = {'kind': 'closed', 'ytype': ytype, 'snm': SNMS[p], 'weights': bool(weights), 'missing': missing,
             'exposure_model': expo, 'missing_model': miss_den, 'n': len(df), 'data': frame_record(df),
             'seedinfo': seedinfo}
-    ref = reference(chk, df, expo, weights, missing, miss_den)
+    try:
+        g = run_impl(df, expo, p, weights, missing, miss_den)
+        psi = np.asarray(g.psi, dtype=float)
+        err = None
+    except Exception as e:       # noqa: BLE001  -- any exception on valid input is a finding
+        psi, err, g = None, '%s: %s' % (type(e).__name__, e), None
+    ref = reference(chk, df, expo, weights, missing, miss_den, ipmw_in_use=None if g is None else g.ipmw)
     if not ref['h_ok']:
         chk.discard('reference exposure-model fit failed its score equations / separation')
         return None
@@ -183,12 +196,6 @@ def check_closed(chk, drv, df, ytype, p, weights, missing, expo, miss_den, seedi
     if not cond < 1e6:
         chk.discard('lhm ill-conditioned (cond > 1e6): outside the np.linalg.solve assumption')
         return None
-    try:
-        g = run_impl(df, expo, p, weights, missing, miss_den)
-        psi = np.asarray(g.psi, dtype=float)
-        err = None
-    except Exception as e:       # noqa: BLE001  -- any exception on valid input is a finding
-        psi, err, g = None, '%s: %s' % (type(e).__name__, e), None
     case['impl_psi'] = None if psi is None else [float(x) for x in psi]
     case['impl_error'] = err
     arms_ok = all(len(set(cc.loc[cc[m] == lv, 'A'])) == 2 for m in ['V', 'W'][:p - 1] for lv in set(cc[m]))
@@ -372,7 +379,7 @@ def check_unspecified(chk, rng):
 
 
 def run(chk, drv, rng, tier):
-    reps = 2 if tier == 'quick' else 14
+    reps = 3 if tier == 'quick' else 30
     cells = list(itertools.product(['continuous', 'binary'], [1, 2, 3], [False, True], MISS))
     chk.extra['config_cells'] = len(cells)
     keep = {}
@@ -431,8 +438,9 @@ def replay(rec):
         p = {v: k for k, v in SNMS.items()}[case['snm']]
         chk = common.Check('C15', 'replay', 0)
         with common.quiet():
-            ref = reference(chk, df, case['exposure_model'], case['weights'], case['missing'], case['missing_model'])
             g = run_impl(df, case['exposure_model'], p, case['weights'], case['missing'], case['missing_model'])
+            ref = reference(chk, df, case['exposure_model'], case['weights'], case['missing'], case['missing_model'],
+                            ipmw_in_use=g.ipmw)
         cc = ref['cc']
         E, S = exact_esteq(cc['A'].values, cc['Y'].values, ref['pi'], ref['w'], design(cc, p), g.psi)
         rel = [abs(float(e)) / max(float(s), 1e-300) for e, s in zip(E, S)]
